@@ -125,6 +125,35 @@ impl State {
     }
 }
 
+#[cfg(lora_rs_verif)]
+impl State {
+    pub(crate) fn verif_state(&self) -> crate::verif::VerifNbState {
+        use crate::verif::VerifNbState as V;
+        let rx = |r: &Rx| match r {
+            Rx::_1(t) => (1u8, *t),
+            Rx::_2(t) => (2u8, *t),
+        };
+        let join = |f: &Frame| matches!(f, Frame::Join);
+        match self {
+            State::Idle(_) => V::Idle,
+            State::SendingData(s) => {
+                let (rx1, rx2) = s.rx_windows.verif_windows();
+                V::SendingData { join: join(&s.frame), rx1, rx2 }
+            }
+            State::WaitingForRxWindow(s) => {
+                let (rx1, rx2) = s.rx_windows.verif_windows();
+                let (window, time) = rx(&s.window);
+                V::WaitingForRxWindow { join: join(&s.frame), rx1, rx2, window, time }
+            }
+            State::WaitingForRx(s) => {
+                let (rx1, rx2) = s.rx_windows.verif_windows();
+                let (window, time) = rx(&s.window);
+                V::WaitingForRx { join: join(&s.frame), rx1, rx2, window, time }
+            }
+        }
+    }
+}
+
 #[derive(Copy, Clone)]
 pub struct Idle;
 
